@@ -17,7 +17,7 @@ PROP_FILE = 'props/C11.v'
 PARTS = ['a', 'x + y', '= b', '\\leq c', '+ d', 'e.', '= f,', 'g \\text{ for } h',
          '\\alpha_i', '\\quad z', 'k \\nonumber', 'm \\label{l}', '= n. \\nonumber',
          '\\mbox{if } p', 'q;\\,', '\\frac{r}{s}:', 't.\\quad\\quad', 'u,\\,\\,', 'v;~\\ ',
-         'w: \\; \\;']
+         'w: \\; \\;', 'n!', '(n+1)!', 'q?', '= m!']
 
 
 def equ_envs():
